@@ -212,7 +212,7 @@ func runWallet(bin, dir string, args []string, watchdog time.Duration) procResul
 		cmd.Process.Signal(syscall.SIGQUIT)
 		select {
 		case err = <-done:
-		case <-time.After(5 * time.Second):
+		case <-time.After(30 * time.Second):
 			cmd.Process.Kill()
 			err = <-done
 		}
